@@ -40,6 +40,9 @@ func (ms *momentumStore) GetMomentumsByHash(blockHash types.Hash, higher bool, c
 	if err != nil {
 		return nil, err
 	}
+	if momentum == nil {
+		return nil, nil
+	}
 	return ms.GetMomentumsByHeight(momentum.Height, higher, count)
 }
 func (ms *momentumStore) GetMomentumByHeight(height uint64) (*nom.Momentum, error) {
